@@ -64,6 +64,18 @@ def scenarios(draw):
                 r["file"] = groups.index(grp)
             truth[name] = "NA" if ungroupable else (grp if mode != "read_id" else name.split(delim)[-1])
             reads.append(r)
+    # chimeric reads: a supplementary record of the same read id on another chromosome (never counted itself, but
+    # seen by everything that scans the BAM by read id, e.g. the per-chromosome split of a group table)
+    if len(sc["chroms"]) > 1:
+        for r in list(reads):
+            if src.bool(0.25):
+                other = src.choice([c for c in sc["chroms"] if c[0] != r["c"]])
+                p0 = src.int(50, max(51, other[1] - 400))
+                sup = R.make_read(r["n"], other[0], [[p0, p0 + src.int(60, 200)]], flag=2048 | (r["f"] & 16), mapq=60)
+                sup["file"] = r.get("file", 0)
+                if r.get("tags"):
+                    sup["tags"] = dict(r["tags"])
+                reads.append(sup)
     for _ in range(src.int(0, 2)):
         k += 1
         r = S.intergenic_read(src, sc, "i%d" % k if mode != "read_id" else "i%d%sNEU" % (k, delim))
